@@ -25,6 +25,9 @@ CHECKS['C02'] = dict(cat='exploration', tech='Hypothesis-generated configuration
 CHECKS['C05'] = dict(cat='exploration', tech='Hypothesis-generated segment layouts against an independent piecewise-linear geotherm walk (reservoir module run on the read model); generated full runs for the drawdown limit / periodic restart / monotonicity invariants, closed-form percentage-drawdown profile as reference',
              text='Thousands of 1..4-segment layouts (both sides of the gradient and thickness unit conventions, zero gradients, Tmax cap active or not) compare Trock, effective depth and Tres[0] with a reference walk; generated runs with Maximum Drawdown in (0,1] check that production temperature never falls below the limit, that the profile is periodic with a period consistent with the reported redrilling count (exact count and restart for model 4 without Ramey via the closed form), and that models 3/4 stay below BHT and non-increasing inside a cycle.',
              note='Input heuristics (gradient <=1 is degC/m, thickness <100 is km) are treated as input grammar. The bound/monotone clause presumes injection temperature below BHT (counted when skipped). One genuine defect found and repaired (F-C05-a, stale redrilling count with district heating).', ref='2/C05')
+CHECKS['C15'] = dict(cat='exploration', tech='Hypothesis over direct calls of the pressure predictors (closed form with the documented integer-step rounding) and of the friction routine (metamorphic: larger diameter, not larger loss); generated runs under both hydraulic models checking sign and additivity invariants of pumping power and the shape of the pressure series',
+             text='~40 000 predictor cases (lifetime x steps x overpressure x rates incl. rates that do not divide 100 evenly), 4 000 ordered diameter pairs through WellPressureDrop / InjectionWellPressureDrop, and ~1 000 generated runs (impedance and PI/II models, pumped and flash plants, overpressure with split injection reservoir) check PumpingPower >= 0, total = production + injection with both >= 0, start at pct x hydrostatic, constant decline at the stated rate, floor at hydrostatic, injection pressure rising at rate/tspy.',
+             note='Overpressure is only generated under the PI/II model (with the impedance model the report writer fails: rejected input). No declared range exists for overpressure percentage / rates: generator uses 100..400 % and 0.01..100 %/yr.', ref='2/C15')
 NOT_YET = {}
 def main():
     props = [json.loads(l) for l in open(os.path.join(HERE, 'properties.jsonl'))]
